@@ -3557,6 +3557,11 @@ impl XmlNamespace {
     pub fn implicit(&self) -> bool {
         self.namespace.borrow().implicit()
     }
+
+    /// The document the namespace node belongs to (`owner_document()` is `None` for this node).
+    pub fn document(&self) -> XmlDocument {
+        XmlDocument::from(self.namespace.borrow().owner())
+    }
 }
 
 // -----------------------------------------------------------------------------------------------
